@@ -250,7 +250,8 @@ CHECKS = {
                   "callbacks_ok_read_handler", "callbacks_ok_association_information", "callbacks_ok_get_current_time", "callbacks_ok_control_handler", "callbacks_ok_control_status_returned",
                   "callbacks_ok_outstation_application", "callbacks_ok_application_results", "callbacks_ok_outstation_information", "callbacks_ok_promise_completion", "callbacks_ok_promise_dropped",
                   "builders_ok_request", "builders_ok_command_set", "builders_ok_dead_band_request", "differential_attr_definitions", "differential_octet_string_ops",
-                  "configs_ok_master_channel", "configs_ok_association", "configs_ok_outstation", "configs_invalid_refused"],
+                  "configs_ok_master_channel", "configs_ok_association", "configs_ok_outstation", "configs_invalid_refused",
+                  "callbacks_ok_attributes_delivered", "callbacks_ok_read_handler_attributes", "callbacks_ok_attribute_write_answers", "callbacks_ok_application_attribute_writes"],
         thorough_scale=20.0,
         abnormal_exit_is_violation=True,
         assumptions=HARNESS_TRUST + ["'like-named' is decided on Debug names after removing case, underscores and payloads, with an explicit rename table (Unknown -> Nul for trip-close / operation codes that the binding cannot express)"],
